@@ -232,3 +232,24 @@ PROPS["C09"] = simple(
                "foreign-host authors are violations. Sampled.",
     level_note="Trusted: kit/world (generator, materialisation and the reference views Resolve/Children). A genuine entry shown as an error item is not a violation of this statement ('only if'); it is counted (genuine_shown_as_error) and the run is inconclusive if few genuine entries are shown.",
 )
+
+
+def c02_variants(tier, seed, s):
+    return [dict(name="cache%d" % cs, config=dict(preload=5, timeout=5, cache=cs), shards=(3 if tier == "quick" else 6)) for cs in (128, 2, 1)]
+
+
+PROPS["C02"] = simple(
+    "verifchk/c02", "TestVerifC02", "exploration",
+    "generated multi-host worlds (two victim hosts, one attacker host, a second attacker sharing a victim's IP on another port) plus 12 attack constructions per world drawn from: forged "
+    "embedded copies of victims' objects (as parent, author, actor, object, collection items), {id,type} stubs, plain references, attacker->victim redirects (legitimate), a victim's open "
+    "redirect landing on the attacker's forgery, attacker->open-redirect->forgery chains, forgeries served under the attacker's address with the victim's id, ghost ids that 404 at the victim, "
+    "forged documents carrying fake reply collections. L1: a crawler applies the honest-caller contract (source = validated id of the enclosing object) to every value of every accepted "
+    "object, in random order; L2: pub.New on every entry and a bounded walk over parents, children, authors, actors and targets. One process per cache size in {128, 2, 1}. "
+    "Non-trivial: every world; distinct = (world, forgeries, accepted pairs).",
+    variants=c02_variants,
+    floor=dict(evaluations=5000, distinct=50, forgeries_planted=500, cross_host_refetch_accepted=200, items_inspected=1000),
+    technique="runtime monitor: serve-time provenance stamps checked on every (object, id) pair accepted by FetchUnknown and on every item displayed",
+    level_text="The simulator stamps every served JSON object with the authority that served it; whatever FetchUnknown accepts together with an id must carry the stamp of the id's host, and no "
+               "item may display content the generator planted as a forgery. The stamp is written at serve time only, so it cannot be forged by content. Sampled over attack constructions, fetch orders and cache sizes.",
+    level_note="Trusted: kit/sim + kit/world stamping. Objects of one or two fields are not stamped (servitor treats them as stubs and always re-fetches them; a third key would change that). Only honest (input, source) pairs are passed.",
+)
